@@ -91,8 +91,10 @@ def _mans(rng, epoch, kmax=3):
 
 def _ud(rng):
     r = rng.random()
-    if r < 0.45:
+    if r < 0.42:
         return None
+    if r < 0.45:
+        return {}
     k = 1 if r < 0.65 else rng.randint(2, 4)
     keys = []
     while len(keys) < k:
@@ -398,9 +400,11 @@ def compare(a, b):
     t = a["type"]
     if t in ("opm", "omm"):
         _cmp_sv(a, b, "", diffs)
-        for k in ("name", "id", "ud"):
+        for k in ("name", "id"):
             if a[k] != b[k]:
                 diffs.append((k, a[k], b[k]))
+        if (a["ud"] or None) != (b["ud"] or None):      # an empty user-defined dict and none at all are not distinguished
+            diffs.append(("ud", a["ud"], b["ud"]))
     if t == "opm":
         if len(a["mans"]) != len(b["mans"]):
             diffs.append(("mans.len", len(a["mans"]), len(b["mans"])))
@@ -512,6 +516,10 @@ def features(spec):
     if t in ("opm", "omm"):
         if spec["ud"] is not None:
             f.append("ud%d" % min(len(spec["ud"]), 2))
+        if t == "omm" and not spec["via_tle"]:
+            f.append("no-tle")
+        if t == "opm" and any(m["frame"] == "QSW" for m in spec["mans"]):
+            f.append("man-qsw")
     if t == "oem":
         if any(len(s["points"]) == 1 for s in spec["segs"]):
             f.append("points1")
@@ -524,7 +532,42 @@ def features(spec):
                 break
         if any(o["kind"] == "Doppler" for o in spec["obs"]):
             f.append("doppler")
+        if len(spec["paths"]) > 1 and len({o["path"] for o in spec["obs"]}) > 1:
+            f.append("paths2")
+        for pi in range(len(spec["paths"])):
+            kinds = {o["kind"] for o in spec["obs"] if o["path"] == pi}
+            if "Elevation" in kinds and "Azimut" not in kinds:
+                f.append("elev-no-az")
+                break
     return f
+
+
+def classify(raw, feats):
+    """name of the defect a failure belongs to, computed from the call site of the exception (or the field that differs)
+    *and* the input class; anything that does not match keeps its raw family"""
+    rules = [
+        ("oem-xml-load:TypeError@commons.decode_unit", "points1", "xml-single-element:oem.stateVector"),
+        ("oem-xml-load:TypeError@oem._loads_xml", "cov1", "xml-single-element:oem.covarianceMatrix"),
+        ("tdm-xml-load:AttributeError@tdm._loads_xml", "obs1", "xml-single-element:tdm.observation"),
+        ("opm-xml-load:AttributeError@opm._loads_xml", "ud1", "xml-single-element:opm.USER_DEFINED"),
+        ("omm-xml-load:AttributeError@omm._loads_xml", "ud1", "xml-single-element:omm.USER_DEFINED"),
+        ("opm-xml-load:AttributeError@commons._recurse", "ud0", "xml-empty-user-defined"),
+        ("omm-xml-load:AttributeError@commons._recurse", "ud0", "xml-empty-user-defined"),
+        ("opm-kvn-restored:man.frame:QSW->RSW", "man-qsw", "maneuver-frame-qsw-reloads-rsw"),
+        ("opm-xml-restored:man.frame:QSW->RSW", "man-qsw", "maneuver-frame-qsw-reloads-rsw"),
+        ("omm-kvn-dump:AttributeError@omm._dumps_kvn", "no-tle", "omm-kvn-dump-needs-tle"),
+        ("omm-redump-kvn:AttributeError@omm._dumps_kvn", None, "omm-kvn-dump-needs-tle"),
+        ("tdm-kvn-load:CcsdsError@tdm._loads_kvn", "doppler", "tdm-doppler-not-read"),
+        ("tdm-xml-load:CcsdsError@tdm._loads_xml", "doppler", "tdm-doppler-not-read"),
+        ("tdm-kvn-load:KeyError@tdm._loads_kvn", "elev-no-az", "tdm-elevation-without-azimuth"),
+        ("tdm-xml-load:UnboundLocalError@tdm._loads_xml", "elev-no-az", "tdm-elevation-without-azimuth"),
+        ("tdm-redump-kvn:TypeError@commons.detect2dump", "paths2", "tdm-multi-path-reloads-as-list"),
+        ("tdm-redump-xml:TypeError@commons.detect2dump", "paths2", "tdm-multi-path-reloads-as-list"),
+    ]
+    for r, feat, name in rules:
+        if raw == r and (feat is None or feat in feats):
+            return name
+    return raw
 
 
 def roundtrip(spec, fmt, via="arg"):
@@ -564,7 +607,7 @@ def check_spec(out, spec, via="arg", kind="random"):
         out.count(key=None, kind=f"{t}-{fmt}-{kind}", via=via)
         if r["error"]:
             exc, site, msg = r["error"]
-            out.fail(f"{t}-{fmt}-{r['stage']}:{exc}@{site}", f"{t.upper()} {fmt}: {r['stage']} raises {exc} ({msg})",
+            out.fail(classify(f"{t}-{fmt}-{r['stage']}:{exc}@{site}", feats), f"{t.upper()} {fmt}: {r['stage']} raises {exc} at {site} ({msg})",
                      {"spec": spec, "fmt": fmt, "via": via, "features": feats}, observed=f"{exc}: {msg}", expected="object restored")
             continue
         diffs = compare(r["canon0"], r["canon1"])
@@ -572,7 +615,7 @@ def check_spec(out, spec, via="arg", kind="random"):
             tag = d[0]
             if tag in ("man.frame", "cov.frame", "point.cov.frame"):
                 tag += f":{d[1]}->{d[2]}"
-            out.fail(f"{t}-{fmt}-restored:{tag}", f"{t.upper()} {fmt}: field {d[0]} is not restored by loads(dumps(x))",
+            out.fail(classify(f"{t}-{fmt}-restored:{tag}", feats), f"{t.upper()} {fmt}: field {d[0]} is not restored by loads(dumps(x))",
                      {"spec": spec, "fmt": fmt, "via": via, "features": feats}, observed=d[2], expected=d[1])
         loaded[fmt] = r
         # anything that was read can be written again
@@ -580,7 +623,7 @@ def check_spec(out, spec, via="arg", kind="random"):
             try:
                 Fmt(f2, "arg").dumps(r["obj"])
             except Exception as e:
-                out.fail(f"{t}-redump-{f2}:{type(e).__name__}@{_site_ccsds(e)}", f"{t.upper()} loaded from {fmt} cannot be dumped again as {f2}: {type(e).__name__} {str(e)[:100]}",
+                out.fail(classify(f"{t}-redump-{f2}:{type(e).__name__}@{_site_ccsds(e)}", feats), f"{t.upper()} loaded from {fmt} cannot be dumped again as {f2}: {type(e).__name__} {str(e)[:100]}",
                          {"spec": spec, "fmt": fmt, "via": via, "refmt": f2, "features": feats}, observed=type(e).__name__, expected="text")
     if len(loaded) == 2:
         d = compare_exact(loaded["kvn"]["canon1"], loaded["xml"]["canon1"])
@@ -775,6 +818,35 @@ def read_tables():
                 if isinstance(b, ast.Assign) and b.targets[0].id == "name" and cls in imported:
                     names.append((cls, _const(b.value)))
     t["tdmNames"] = sorted(set(names), key=names.index)
+    # TDM readers: data key -> class, and whether the branch also tests ANGLE_TYPE
+    def read_kinds(fn):
+        out = []
+        for n in ast.walk(fn):
+            if isinstance(n, ast.If):
+                cmp = [c for c in ast.walk(n.test) if isinstance(c, ast.Compare) and isinstance(c.left, ast.Name) and c.left.id in ("key", "meas_type")
+                       and isinstance(c.ops[0], ast.Eq) and isinstance(_const(c.comparators[0]), str)]
+                if not cmp:
+                    continue
+                cls = [c.func.id for b in n.body for c in ast.walk(b) if isinstance(c, ast.Call) and isinstance(c.func, ast.Name) and c.func.id[:1].isupper() and c.func.id != "CcsdsError"]
+                if cls:
+                    out.append((cmp[0].comparators[0].value, cls[0], isinstance(n.test, ast.BoolOp)))
+        return out
+    rk, rx = read_kinds(_func(tdm, "_loads_kvn")), read_kinds(_func(tdm, "_loads_xml"))
+    if rk != rx:
+        raise RuntimeError(f"TDM readers accept different keys: {rk} vs {rx}")
+    t["tdmReadKinds"] = rk
+    # classes whose presence makes collect_metadata write ANGLE_TYPE / RANGE_UNITS
+    trig = {}
+    for n in ast.walk(_func(tdm, "collect_metadata")):
+        if isinstance(n, ast.If) and len(n.body) == 1 and isinstance(n.body[0], ast.Assign) and isinstance(n.body[0].targets[0], ast.Subscript):
+            k = _const(n.body[0].targets[0].slice)
+            if k in ("ANGLE_TYPE", "RANGE_UNITS"):
+                trig[k] = [c.left.value for c in ast.walk(n.test) if isinstance(c, ast.Compare) and isinstance(c.ops[0], ast.In) and isinstance(_const(c.left), str)]
+    t["tdmAngleTrig"], t["tdmRangeTrig"] = trig["ANGLE_TYPE"], trig["RANGE_UNITS"]
+    # does the KVN OMM writer need the Tle object; does dumps accept a list of measure sets
+    t["ommKvnNeedsTle"] = "tle.tle." in ast.get_source_segment(open(os.path.join(CCSDS_DIR, "omm.py")).read(), _func(omm, "_dumps_kvn"))
+    t["tdmDumpsAcceptsList"] = "Measure" in ast.get_source_segment(open(os.path.join(CCSDS_DIR, "tdm.py")).read(), _func(tdm, "dumps")) and \
+        "MeasureSet" in ast.get_source_segment(open(os.path.join(CCSDS_DIR, "commons.py")).read(), _func(commons, "detect2dump"))
     # which XML groups the readers wrap into a list
     w = {"opm": _wrapped_keys(_func(opm, "_loads_xml")), "omm": _wrapped_keys(_func(omm, "_loads_xml")),
          "oem": _wrapped_keys(_func(oem, "_loads_xml")), "tdm": _wrapped_keys(_func(tdm, "_loads_xml"))}
@@ -810,6 +882,11 @@ def extract(ctx):
          "def oemCovRowKeys : List (List String) := [" + ",\n  ".join(lstr(r) for r in t["oemCovRowKeys"]) + "]",
          "def tdmNames : List (String × String) := [" + ", ".join(pair(a, b) for a, b in t["tdmNames"]) + "]",
          "def frameTable : List (String × String × String) := [" + ", ".join(f"({json.dumps(a)}, {json.dumps(b)}, {json.dumps(c)})" for a, b, c in t["frameTable"]) + "]"]
+    L.append("def tdmReadKinds : List (String × String × Bool) := [" + ", ".join(f"({json.dumps(a)}, {json.dumps(b)}, {'true' if c else 'false'})" for a, b, c in t["tdmReadKinds"]) + "]")
+    L.append(f"def tdmAngleTrig : List String := {lstr(t['tdmAngleTrig'])}")
+    L.append(f"def tdmRangeTrig : List String := {lstr(t['tdmRangeTrig'])}")
+    L.append(f"def ommKvnNeedsTle : Bool := {'true' if t['ommKvnNeedsTle'] else 'false'}")
+    L.append(f"def tdmDumpsAcceptsList : Bool := {'true' if t['tdmDumpsAcceptsList'] else 'false'}")
     for k, v in t["wrap"].items():
         L.append(f"def {k} : Bool := {'true' if v else 'false'}")
     L.append("end BeyondVerif.Generated")
